@@ -14,35 +14,51 @@
 (*    [kind |-> "open", line |-> n]     up to line n-1 the file is fine, line n is outside what the        *)
 (*                                      documentation fixes: anything may happen from line n on            *)
 (*                                                                                                         *)
-(* Sources.  [D] = documented: the column comments in message.cpp / data.cpp / filereader.h (             *)
-(*   "[type],[circuit],name,[comment],[QQ[;QQ]*],[ZZ],[PBSB],[ID],fields...",                              *)
+(* Sources.  [D] = documented: the column comments in message.cpp / data.cpp / filereader.h, which encode    *)
+(*   the configuration conventions of the ebusd wiki                                                        *)
+(*   ("[type],[circuit],name,[comment],[QQ[;QQ]*],[ZZ],[PBSB],[ID],fields...",                              *)
 (*   "name[:usename],basetype[:len]|template[:usename][,[divisor|values][,[unit][,[comment]]]]",           *)
 (*   "first line defines column names", "Columns starting with a * mark the beginning of a repeated sub    *)
-(*   row", "default values indicated by the first field starting with a *"), ChangeLog.md entries, the      *)
-(*   ebusd wiki chapters 4.1-4.3 conventions (type letters, r1-r9, defaults per type key such as *wi,      *)
-(*   ID default = prefix, default fields prepended, ZZ lists, circuit#level), and what upstream's own      *)
-(*   tests assert (test_message.cpp: "*r,cir*cuit#level,na*me,com*ment,ff,75,b509,0d"; "08;10" rejected,    *)
-(*   "08;09" gives several messages; test_data.cpp: uin10 x -10 accepted, uin10 x 10 and temp x -10        *)
-(*   rejected, name substitution, struct templates).                                                       *)
+(*   row", "default values indicated by the first field starting with a *", "[circuit[#level]]",            *)
+(*   "cannot use divisor != 1 for value list field", "value list not allowed in set derive", ...),         *)
+(*   ChangeLog.md ("allow specifying multiple destination addresses in message definition and defaults",   *)
+(*   "extended default definition in CSV to allow message name and comment prefix/suffix", "allow inline   *)
+(*   rename of template reference", "corrected derivation of field name, comment and unit in templates"),  *)
+(*   the use in the published configuration files (defaults per type key such as *wi used by "r;wi" rows,   *)
+(*   ID default = prefix, default fields in front), and what upstream's own tests assert                   *)
+(*   (test_message.cpp: "*r,cir*cuit#level,na*me,com*ment,ff,75,b509,0d"; "08;10" rejected, "08;09" gives   *)
+(*   several messages; "*w,,,,,,b505,2d" + "w,cir,offset,,,50,,,,,temp"; test_data.cpp: uin10 x -10         *)
+(*   accepted, uin10 x 10 and temp x -10 rejected, name substitution, struct templates).                   *)
 (*   [C] = convention: the documentation says *that* something happens but not the detail; P states the    *)
-(*   one consistent rule (listed in the check's report as conventions, so that a deliberate change shows    *)
-(*   up as drift, not as a defect):                                                                        *)
+(*   one consistent rule (the check reports them as conventions; a deliberate change shows up as drift,     *)
+(*   never as a violation):                                                                                *)
 (*     C1  the k-th message of a ZZ list gets the circuit name  circuit "." (k-1)                           *)
 (*     C2  a field group whose cells are all empty is no field (also between two fields)                   *)
 (*     C3  identity of a message: (circuit, name) without case per direction class R / W / P (passive      *)
 (*         read and passive write share P); (class, ZZ, PBSB+ID) and for P also QQ                         *)
-(*     C4  a message row needs its own name; a default name is only a pattern (with a star) or ignored       *)
+(*     C4  a message row needs its own name; a default name is only a pattern (with a star) or ignored     *)
 (*     C5  usage unit/comment replace the template's for the first derived field only                      *)
+(*   Value list / divisor of a template against the usage (what is fixed, and where):                      *)
+(*     template list, usage nothing -> the template's list; usage list -> the usage's list replaces it     *)
+(*     [D: derive]; usage divisor other than 1 -> rejected [D]; template constant + anything, usage         *)
+(*     constant on any template, list or divisor on a text type, list on a struct -> rejected [D];          *)
+(*     template divisor x usage divisor -> product rule [D: tests]; usage divisor on a struct -> applied    *)
+(*     to every field, rejected when one of them cannot take it; plain numeric template + usage list ->     *)
+(*     value list field; template with its own divisor + usage list -> O4 (the pinned code accepts it and   *)
+(*     keeps a divisor on the value list type, which its own dump cannot express: finding of the check)     *)
 (*   Left open (kind "open"), because neither documented nor forced by consistency:                        *)
 (*     O1  a row with its own PBSB while the default carries an ID prefix                                  *)
 (*     O2  the level when both a level column/default and circuit#level are given, and when a row names     *)
 (*         its own circuit while the default circuit carries #level                                        *)
 (*     O3  a default row that is invalid in itself (reported at its own line, at the first use, or never)   *)
-(*     O4  a value list in the usage of a template that carries its own divisor (symmetric case, divisor    *)
-(*         on a value list template, is rejected)                                                          *)
+(*     O4  a value list in the usage of a template that carries its own divisor (the symmetric case,        *)
+(*         a divisor on a value list template, is rejected)                                                *)
 (*     O5  both a field name and template:name; a field name on a template with several fields             *)
-(*     O6  a part other than "m" for a master / broadcast destination; several types in one field (a;b); chained ids     *)
-(*         with explicit lengths; lenient number spellings; unknown column names; several * groups          *)
+(*     O6  a part other than "m" for a master / broadcast destination; several types in one field (a;b);    *)
+(*         chained ids with explicit lengths; lenient number spellings; unknown column names; several       *)
+(*         starred groups in a message header; data types outside the seven modelled here                   *)
+(*   Out of scope: conditions ([name] and *[cond] rows), instructions (!include, !load), range columns,     *)
+(*   language columns (name.en), defaults derived from the file name, the data length limit (C09).          *)
 (* Texts are sequences of character codes.                                                                  *)
 EXTENDS Naturals, Integers, Sequences, FiniteSets, SequencesExt
 CSV == INSTANCE Csv
